@@ -1,22 +1,26 @@
 import Rustemo.Model.LR
 import Rustemo.Model.Cert
 /-!
-# Executable hypotheses of the Layout-rule round trip (C14)
+# Executable conditions around the Layout-rule round trip (C14)
 
-Nothing here mirrors Rust code.  `scan` is the layout parser of `Model/LR.lean` (`layoutParse`:
-partial parse from the layout state, string lexer without whitespace skipping) with positions,
-spans, trees and the context erased: a stack of states, a byte offset and the token ahead.
-`Proofs/LayoutRTScan.lean` proves that `layoutParse` refines it, so the outcome of a layout parse
-depends on the byte offset only.
+Nothing here mirrors Rust code.
 
-`LayoutCert.check env ls fuel` evaluates, at every byte offset of the input, the three conditions
-under which re-lexing after a reduction cannot move the position (the parser stores the layout
-only once per token, `lr/parser.rs` Reduce arm):
+`autoOk g t ls` — the layout automaton is one of the table's automata and its symbol is a nonterminal —
+is the only hypothesis of `C14_roundtrip_layout` besides the table certificates.
+
+The rest describes the inputs on which the loop BEFORE the repairs of the findings C14-N1 / C14-N2
+(`Model/LROld.lean`) was lossless; it is used by the counterexample theorems about that loop and, as
+coverage information, by the driver command `layoutcert` (which inputs exercise the repaired paths).
+`scan` is the layout parser of `Model/LR.lean` (`layoutParse`: partial parse from the layout state,
+string lexer without whitespace skipping) with positions, spans, trees and the context erased: a
+stack of states, a byte offset and the token ahead.  `Proofs/LayoutRTScan.lean` proves that
+`layoutParse` refines it, so the outcome of a layout parse depends on the byte offset only.
+`check env ls fuel` evaluates, at every byte offset of the input:
 
 * `notToken`   — where the layout parser succeeds and consumes something, no state of the main
-                  automaton finds a token;
-* `idempotent` — where a layout parse ended, a second one consumes nothing;
-* `failStays`  — a layout parse that fails has not advanced.
+                  automaton finds a token (else: layout parsed on re-lexing after a reduce; C14-N1);
+* `idempotent` — where a layout parse ended, a second one consumes nothing (else: the same);
+* `failStays`  — a layout parse that fails has not advanced (else: C14-N2).
 -/
 namespace Rustemo
 namespace LayoutCert
@@ -172,7 +176,7 @@ def autoOk (g : Grammar) (t : Table) (ls : Nat) : Bool :=
 def static (env : Env) (ls : Nat) : Bool :=
   closed env.t (mainStates env.t) && autoOk env.g env.t ls
 
-/-- everything the Layout-rule round-trip theorem asks of (table, input, fuel) -/
+/-- the inputs on which the loop before the repairs of C14-N1/N2 was lossless as well -/
 def check (env : Env) (ls fuel : Nat) : Bool :=
   static env ls && notToken env ls fuel && idempotent env ls fuel && failStays env ls fuel
 
